@@ -66,7 +66,9 @@ out += ['', '-' * 117, '', '## 7. Seeded changes (independent sub-agents; which 
         'Each change was written by a fresh sub-agent that saw only the property text and a scratch worktree (nothing from /verif), compiles, passes',
         'the existing tests, and comes with a demonstration that fails with it and passes without (all confirmed by `tool/seedverify.sh`,',
         '`confirmed_by_me` in each meta.json). `tool/seedcheck.sh seeded/*` applies each to a scratch copy of /repo and runs the quick check.', '',
-        '| seed | where / what | result | caught by |', '|------|--------------|--------|-----------|']
+        'The column `verifier only` is the same run with the witness program switched off (VERIF_NO_WITNESS=1): what the contracts alone decide.', '',
+        '| seed | where / what | result | caught by | verifier only |', '|------|--------------|--------|-----------|---------------|']
+tot_v = {}
 tot = {'VIOLATION': 0, 'UNDECIDED': 0, 'OK': 0}
 for d in sorted(glob.glob(os.path.join(V, 'seeded', '*'))):
     try:
@@ -81,8 +83,35 @@ for d in sorted(glob.glob(os.path.join(V, 'seeded', '*'))):
     res = m.get('check_result_latest', m.get('check_result_first_run', '?'))
     tot[res] = tot.get(res, 0) + 1
     by = m.get('caught_by_latest', '')
-    out.append('| %s | %s | %s | %s |' % (m['seed'], where[:110], 'missed (OK)' if res == 'OK' else res, by[:160].replace('|', '/')))
-out += ['', 'Totals: %d caught (VIOLATION), %d undecided (exit 2, counted as missed), %d missed (exit 0).' % (tot.get('VIOLATION', 0), tot.get('UNDECIDED', 0), tot.get('OK', 0)), '']
+    rv = m.get('check_result_verifier_only', '?')
+    tot_v[rv] = tot_v.get(rv, 0) + 1
+    out.append('| %s | %s | %s | %s | %s |' % (m['seed'], where[:110], 'missed (OK)' if res == 'OK' else res, by[:160].replace('|', '/'), ('missed (OK)' if rv == 'OK' else rv) + ((': ' + m.get('caught_by_verifier_only', '')[:90].replace('|', '/')) if rv == 'VIOLATION' else '')))
+out += ['', 'Totals: %d caught (VIOLATION), %d undecided (exit 2, counted as missed), %d missed (exit 0).' % (tot.get('VIOLATION', 0), tot.get('UNDECIDED', 0), tot.get('OK', 0)),
+        'Verifier only: %d VIOLATION (a named obligation fails), %d UNDECIDED, %d OK, %d not measured.' % (tot_v.get('VIOLATION', 0), tot_v.get('UNDECIDED', 0), tot_v.get('OK', 0), tot_v.get('?', 0)), '']
+# harmless refactorings
+hs = []
+for d in sorted(glob.glob(os.path.join(V, 'seeded_harmless', '*'))):
+    try:
+        hs.append(json.load(open(os.path.join(d, 'result.json'))))
+    except Exception:
+        pass
+if hs:
+    out += ['### 7.1 Behaviour-preserving refactorings (seeded_harmless/, written by independent sub-agents; the check must never say VIOLATION)', '',
+            'Each is a patch that compiles, passes the existing tests and preserves behaviour by the argument in its meta.md (helper extraction / inlining,',
+            '`if let` <-> `match`, loop <-> iterator chain, renamed locals, reordered independent statements, clippy-style simplifications).', '']
+    byp = {}
+    for h in hs:
+        byp.setdefault(h['property'], []).append(h)
+    out += ['| property | OK | UNDECIDED | VIOLATION (false alarm) |', '|----------|----|-----------|-------------------------|']
+    for pid in sorted(byp):
+        c = {}
+        for h in byp[pid]:
+            c[h['check_result']] = c.get(h['check_result'], 0) + 1
+        out.append('| %s | %d | %d | %d |' % (pid, c.get('OK', 0), c.get('UNDECIDED', 0), c.get('VIOLATION', 0)))
+    ca = {}
+    for h in hs:
+        ca[h['check_result']] = ca.get(h['check_result'], 0) + 1
+    out += ['', 'Totals over %d refactorings: %d OK, %d UNDECIDED, %d VIOLATION. The false alarms met on the way are in section 8; each was corrected.' % (len(hs), ca.get('OK', 0), ca.get('UNDECIDED', 0), ca.get('VIOLATION', 0)), '']
 tail = os.path.join(V, 'DESIGN.tail.md')
 if os.path.exists(tail):
     out += ['-' * 117, '', open(tail).read().rstrip(), '']
